@@ -173,25 +173,28 @@ func mergeDecoder(r *vx.Report, d *decoderRun) {
 	}
 	r.Extra["decoder_classes"] = classes
 	r.Extra["process"] = map[string]any{"executions": procEvals, "deviating_schedules": procNontriv, "representatives": len(representatives())}
-	// every outcome class of the decoder half needs a representative in the process half
-	covered := map[string]bool{}
-	for _, rp := range representatives() {
-		b := newBatchStats()
-		evalFirst(b, []byte(rp.Frames[0].Data))
-		for k := range b.Classes {
-			covered[k] = true
+	// every outcome class of the decoder half needs a representative in the process half (the
+	// representatives' first frames are part of the case space, so they are known to terminate here)
+	if !skipProcessHalf() {
+		covered := map[string]bool{}
+		for _, rp := range representatives() {
+			b := newBatchStats()
+			evalFirst(b, []byte(rp.Frames[0].Data))
+			for k := range b.Classes {
+				covered[k] = true
+			}
 		}
-	}
-	var missing []string
-	for _, k := range sortedKeys(st.Classes) {
-		if !covered[k] {
-			missing = append(missing, k+"  e.g. "+showFramesShort(st.Classes[k].Ex.Frames))
+		var missing []string
+		for _, k := range sortedKeys(st.Classes) {
+			if !covered[k] {
+				missing = append(missing, k+"  e.g. "+showFramesShort(st.Classes[k].Ex.Frames))
+			}
 		}
-	}
-	sort.Strings(missing)
-	r.Extra["decoder_classes_without_process_representative"] = missing
-	if len(missing) > 0 {
-		r.CapsHit = append(r.CapsHit, fmt.Sprintf("process half: %d decoder outcome classes have no representative (listed in the evidence)", len(missing)))
+		sort.Strings(missing)
+		r.Extra["decoder_classes_without_process_representative"] = missing
+		if len(missing) > 0 {
+			r.CapsHit = append(r.CapsHit, fmt.Sprintf("process half: %d decoder outcome classes have no representative (listed in the evidence)", len(missing)))
+		}
 	}
 	// samples: a few written-out cases
 	n := 0
